@@ -14,11 +14,13 @@ import (
 	"gonum.org/v1/gonum/graph"
 
 	"verif/sim/core"
+	"verif/sim/sched"
 	"verif/sim/tape"
 )
 
 func init() {
 	core.Register("C19", func() core.Engine { return &engine{} })
+	_ = sched.Uniform
 }
 
 type engine struct{}
@@ -40,7 +42,7 @@ func (e *engine) Info() core.Info {
 			"networks as the property states: no self-loops, no parallel links, positive finite speeds; coordinates in [1,9] so that the relative merge tolerance is unambiguous",
 			"the Dijkstra model and polyline-length computation of the oracle are correct; costs compared with 1e-9 relative tolerance; any minimum-cost chain is accepted",
 		},
-		QuickRuns: 250000, ThoroughRuns: 8000000, QuickWallS: 60, ThoroughWallS: 1200,
+		QuickRuns: 150000, ThoroughRuns: 6000000, QuickWallS: 75, ThoroughWallS: 1200,
 	}
 }
 
@@ -57,7 +59,9 @@ type run struct {
 	res        *core.Result
 	net        *route.Network
 	opt        route.MinimizeOption
-	g          int
+	g, gy      int      // lattice columns, rows
+	sx, sy     float64  // coordinate scales: X = sx*(col+1), Y = sy*(row+1)
+	pair       *sched.S // non-nil while two queries run interleaved
 	links      []link
 	pairs      map[[2]int]int
 	nodes      map[int]geom.Point // lattice idx -> first location seen (what the network stores)
@@ -70,7 +74,7 @@ type run struct {
 func (e *engine) Run(t *tape.Tape, trace bool) core.Result {
 	res := core.Result{}
 	r := &run{t: t, log: core.NewLog(trace), res: &res, pairs: map[[2]int]int{}, nodes: map[int]geom.Point{}, perms: core.NewHasher(), states: map[uint64]struct{}{}}
-	route.SimOrder = r.order
+	route.SimOrder = r.orderHook
 	defer func() { route.SimOrder = nil }()
 	r.exec()
 	res.LogHash = r.log.Hash()
@@ -102,6 +106,17 @@ func (r *run) order(nodes []graph.Node) {
 	r.res.Fault("neighbour-order-permuted")
 }
 
+// orderHook is what route.SimOrder points to: it owns the map order and, while
+// two queries run interleaved, is also the point at which the token may pass
+// from one query to the other (after the neighbour list has been filled and
+// before it is handed to A*).
+func (r *run) orderHook(nodes []graph.Node) {
+	r.order(nodes)
+	if r.pair != nil {
+		r.pair.Yield("from", nil)
+	}
+}
+
 func (r *run) fail(class, detail, format string, a ...interface{}) {
 	if r.res.Viol == nil {
 		r.res.Viol = &core.Violation{Class: class, Detail: detail, Msg: fmt.Sprintf(format, a...)}
@@ -110,7 +125,7 @@ func (r *run) fail(class, detail, format string, a ...interface{}) {
 }
 
 func (r *run) latticePt(idx int) geom.Point {
-	return geom.Point{X: float64(1 + idx%r.g), Y: float64(1 + idx/r.g)}
+	return geom.Point{X: r.sx * float64(1+idx%r.g), Y: r.sy * float64(1+idx/r.g)}
 }
 
 func polyLen(l geom.LineString) float64 {
@@ -129,16 +144,31 @@ func (r *run) exec() {
 		r.opt = route.Distance
 	}
 	r.g = 2 + t.Choose(4, "cfg-grid")
+	r.gy = r.g
 	big := t.OneIn(10, "cfg-big")
 	if big {
 		// more than 50 nodes: the node index (an R-tree with fan-out 25..50)
 		// becomes multi-level, so end-point merging and query snapping go
 		// through its split and nearest-neighbour paths
-		r.g = 8 + t.Choose(2, "cfg-grid-big")
+		switch t.Choose(3, "cfg-big-shape") {
+		case 0:
+			r.g = 8 + t.Choose(7, "cfg-grid-big")
+			r.gy = r.g
+		case 1: // a corridor: long straight roads, many collinear nodes
+			r.g = 30 + t.Choose(60, "cfg-corridor-len")
+			r.gy = 1 + t.Choose(3, "cfg-corridor-rows")
+		default: // the same, along the other axis
+			r.g = 1 + t.Choose(3, "cfg-corridor-rows")
+			r.gy = 30 + t.Choose(60, "cfg-corridor-len")
+		}
 	}
+	// coordinate scales, possibly very different per axis (x in millimetres of
+	// a degree, y in metres …); coordinates never are 0
+	scales := []float64{1, 1, 1, 1e-3, 1e3, 1e6, 0.1}
+	r.sx, r.sy = scales[t.Choose(len(scales), "cfg-sx")], scales[t.Choose(len(scales), "cfg-sy")]
 	r.permute = t.Choose(3, "cfg-permute") != 0
 	speedMode := t.Choose(3, "cfg-speeds") // 0 all equal, 1 small set, 2 continuous
-	r.log.Eventf("config minimize=%v grid=%d permute=%v speedMode=%d", r.opt, r.g, r.permute, speedMode)
+	r.log.Eventf("config minimize=%v grid=%dx%d scale=%gx%g permute=%v speedMode=%d", r.opt, r.g, r.gy, r.sx, r.sy, r.permute, speedMode)
 	if p, v, st := core.Protect(func() { r.net = route.NewNetwork(r.opt) }); p {
 		r.fail("panic", "NewNetwork", "NewNetwork panicked: %v %s", v, core.TrimStack(st, 3))
 		return
@@ -146,7 +176,7 @@ func (r *run) exec() {
 	ops := 0
 	maxLinks, maxOps := 40, 90
 	if big {
-		maxLinks, maxOps = 160, 260
+		maxLinks, maxOps = 260, 400
 	}
 	for r.res.Viol == nil && ops < maxOps {
 		ops++
@@ -175,7 +205,7 @@ func (r *run) exec() {
 
 func (r *run) addLink(speedMode int) {
 	t := r.t
-	n := r.g * r.g
+	n := r.g * r.gy
 	var a, b int
 	found := false
 	for try := 0; try < 6 && !found; try++ {
@@ -184,7 +214,7 @@ func (r *run) addLink(speedMode int) {
 		case 0: // lattice neighbour (builds grid-like networks with many alternatives)
 			d := [][2]int{{1, 0}, {0, 1}, {1, 1}, {-1, 1}}[t.Choose(4, "link-dir")]
 			x, y := a%r.g+d[0], a/r.g+d[1]
-			if x < 0 || x >= r.g || y >= r.g {
+			if x < 0 || x >= r.g || y >= r.gy {
 				continue
 			}
 			b = y*r.g + x
@@ -211,9 +241,9 @@ func (r *run) addLink(speedMode int) {
 		if _, seen := r.nodes[idx]; seen && t.OneIn(3, "perturb") {
 			// 1-ulp perturbation of an existing node's location: must merge
 			if t.Bool("perturb-x") {
-				p.X = math.Nextafter(p.X, 100)
+				p.X = math.Nextafter(p.X, math.Inf(1))
 			} else {
-				p.Y = math.Nextafter(p.Y, -100)
+				p.Y = math.Nextafter(p.Y, math.Inf(-1))
 			}
 			r.res.Probe("perturbed-endpoint")
 		}
@@ -226,7 +256,7 @@ func (r *run) addLink(speedMode int) {
 		nInt = 0
 	}
 	for i := 0; i < nInt; i++ {
-		ls = append(ls, geom.Point{X: 1 + t.Unit("ix")*float64(r.g), Y: 1 + t.Unit("iy")*float64(r.g)})
+		ls = append(ls, geom.Point{X: r.sx * (1 + t.Unit("ix")*float64(r.g)), Y: r.sy * (1 + t.Unit("iy")*float64(r.gy))})
 	}
 	ls = append(ls, pb)
 	var speed float64
@@ -318,7 +348,7 @@ func (r *run) topoHash() uint64 {
 		}
 		return es[i].b < es[j].b
 	})
-	h := core.NewHasher().Int(r.g)
+	h := core.NewHasher().Int(r.g).Int(r.gy)
 	for _, x := range es {
 		h = h.Int(x.a).Int(x.b).U64(math.Float64bits(x.c))
 	}
@@ -355,16 +385,85 @@ func (r *run) query() {
 		id := ids[t.Choose(len(ids), label)]
 		p := r.nodes[id]
 		// offset <= 0.3 in each axis: every other node is >= 0.7 away in some axis
-		q := geom.Point{X: p.X + (t.Unit(label+"-dx")-0.5)*0.6, Y: p.Y + (t.Unit(label+"-dy")-0.5)*0.6}
-		if t.OneIn(3, label+"-exact") {
+		q := geom.Point{X: p.X + (t.Unit(label+"-dx")-0.5)*0.6*r.sx, Y: p.Y + (t.Unit(label+"-dy")-0.5)*0.6*r.sy}
+		if t.OneIn(3, label+"-exact") || r.sx != r.sy {
+			// with very different axis scales an offset query point has no
+			// numerically unique nearest node: query at the node itself
 			q = p
 		}
 		return id, q
 	}
 	s, from := pick("q-from")
 	e, to := pick("q-to")
-	r.log.Eventf("route %d(%g,%g) -> %d(%g,%g)", s, from.X, from.Y, e, to.X, to.Y)
 	r.states[r.topoHash()] = struct{}{}
+	if len(r.links) >= 3 && t.OneIn(5, "interleaved-pair") {
+		// two queries on the same network, interleaved at every neighbour-list
+		// hand-over (ShortestRoute promises not to change the network, "so
+		// multiple function calls can be run concurrently")
+		s2, from2 := pick("q2-from")
+		e2, to2 := pick("q2-to")
+		r.log.Eventf("route-pair %d->%d || %d->%d", s, e, s2, e2)
+		type out struct {
+			rt       geom.MultiLineString
+			dist, tm float64
+			p        bool
+			v        interface{}
+			st       string
+		}
+		var o [2]out
+		strat := []string{sched.Uniform, sched.Sticky, sched.RoundRobin}[t.Choose(3, "pair-strategy")]
+		sc := sched.New(t, r.log, strat, 200000)
+		r.pair = sc
+		q := [2][2]geom.Point{{from, to}, {from2, to2}}
+		for i := 0; i < 2; i++ {
+			i := i
+			// the two tasks are not interchangeable: spawn them one at a time
+			// so that task ids do not depend on real arrival order
+			sc.Spawn(1)
+			go func() {
+				sc.Enter()
+				defer sc.Exit()
+				o[i].p, o[i].v, o[i].st = core.Protect(func() {
+					o[i].rt, o[i].dist, o[i].tm, _, _ = r.net.ShortestRoute(q[i][0], q[i][1])
+				})
+			}()
+			sc.WaitArrived()
+		}
+		var ab *sched.Abort
+		func() {
+			defer func() {
+				if e := recover(); e != nil {
+					if a, ok := e.(sched.Abort); ok {
+						ab = &a
+						return
+					}
+					panic(e)
+				}
+			}()
+			sc.Yield("join", sc.WorkersDone)
+		}()
+		sc.WaitAll()
+		r.pair = nil
+		r.res.Probe("interleaved-query-pair")
+		r.res.ProbeN("pair-handoffs", sc.Handoffs)
+		r.perms = r.perms.U64(sc.SchedHash())
+		if ab != nil {
+			r.fail("pair-did-not-finish", ab.Why, "two interleaved ShortestRoute calls did not finish (%s): %s", ab.Why, sc.AbortDesc)
+			return
+		}
+		for i, qq := range [][2]int{{s, e}, {s2, e2}} {
+			if o[i].p {
+				r.fail("panic", "ShortestRoute,interleaved", "ShortestRoute(%v,%v) panicked while interleaved with another query: %v %s", q[i][0], q[i][1], o[i].v, core.TrimStack(o[i].st, 5))
+				return
+			}
+			r.checkRoute(qq[0], qq[1], o[i].rt, o[i].dist, o[i].tm, "interleaved")
+			if r.res.Viol != nil {
+				return
+			}
+		}
+		return
+	}
+	r.log.Eventf("route %d(%g,%g) -> %d(%g,%g)", s, from.X, from.Y, e, to.X, to.Y)
 	var rt geom.MultiLineString
 	var dist, tm float64
 	p, v, st := core.Protect(func() { rt, dist, tm, _, _ = r.net.ShortestRoute(from, to) })
@@ -372,6 +471,11 @@ func (r *run) query() {
 		r.fail("panic", "ShortestRoute", "ShortestRoute(%v,%v) panicked: %v %s", from, to, v, core.TrimStack(st, 5))
 		return
 	}
+	r.checkRoute(s, e, rt, dist, tm, "")
+}
+
+// checkRoute applies the C19 oracle to one answer.
+func (r *run) checkRoute(s, e int, rt geom.MultiLineString, dist, tm float64, mode string) {
 	opt := r.dijkstra(s, r.cost)
 	best, reachable := opt[e]
 	r.log.EventInts("route-result", int64(len(rt)), int64(math.Float64bits(dist)), int64(math.Float64bits(tm)))
